@@ -558,20 +558,21 @@ recorded iteration order keep `P` and `R` -/
 structure SiftEnv (P : Mgr → Prop) (R : Mgr → Mgr → Prop) : Prop extends SwapOK P R where
   gc : ∀ m, P m → ∃ m', collectGarbage none m = (.ok (), m') ∧ P m' ∧ R m m' ∧
     m'.tbl.vars = m.tbl.vars
-  sched : ∀ m s, P m → P { m with sched := s } ∧ R m { m with sched := s }
+  sched : ∀ m s, P m → (m.sched = [] → s = []) → P { m with sched := s } ∧ R m { m with sched := s }
 
 theorem takeSiftOrder_inv {m m' : Mgr} {names : List String}
-    (h : takeSiftOrder m = (.ok names, m')) : ∃ s, m' = { m with sched := s } := by
+    (h : takeSiftOrder m = (.ok names, m')) : ∃ s, m' = { m with sched := s } ∧ (m.sched = [] → s = []) := by
   unfold takeSiftOrder at h
   obtain ⟨m0, m0', g0, h0⟩ := M.bind_ok_inv h
   obtain ⟨e1, e2⟩ := M.get_ok_inv g0
   subst e1; subst e2
   split at h0
-  · cases h0; exact ⟨m.sched, rfl⟩
-  · obtain ⟨_, m1, g1, h1⟩ := M.bind_ok_inv h0
+  · cases h0; exact ⟨m.sched, rfl, fun h => h⟩
+  · next names' rest hs =>
+    obtain ⟨_, m1, g1, h1⟩ := M.bind_ok_inv h0
     cases g1
     split at h1
-    · cases h1; exact ⟨_, rfl⟩
+    · cases h1; exact ⟨_, rfl, fun h => by rw [hs] at h; cases h⟩
     · cases h1
   · cases h0
 
@@ -593,8 +594,8 @@ theorem applySifting_partial (E : SiftEnv P R) (m m' : Mgr) (hP : P m)
   obtain ⟨e1, e2⟩ := M.get_ok_inv g1
   subst e1; subst e2
   obtain ⟨names, mb, g2, h2⟩ := M.bind_ok_inv h1
-  obtain ⟨s, rfl⟩ := takeSiftOrder_inv g2
-  obtain ⟨hPb, hRb⟩ := E.sched mg s hPg
+  obtain ⟨s, rfl, hs0⟩ := takeSiftOrder_inv g2
+  obtain ⟨hPb, hRb⟩ := E.sched mg s hPg hs0
   by_cases hc : names.isEmpty = true
   · rw [if_pos hc] at h2; cases h2
   · rw [if_neg hc] at h2
@@ -608,7 +609,8 @@ theorem applySifting_partial (E : SiftEnv P R) (m m' : Mgr) (hP : P m)
     exact ⟨hPc, S.trans _ _ _ hRg (S.trans _ _ _ hRb hRc), hnc, of_decide_eq_true hle⟩
 
 theorem takeSiftOrder_outcome (m : Mgr) :
-    OkOrSched (fun names m' => (∃ s, m' = { m with sched := s }) ∧ names.length = m.tbl.vars.size ∧
+    OkOrSched (fun names m' => (∃ s, m' = { m with sched := s } ∧ (m.sched = [] → s = [])) ∧
+        names.length = m.tbl.vars.size ∧
         ∀ v ∈ names, m.tbl.vars.contains v = true) (takeSiftOrder m) := by
   have hkeys : ∀ v ∈ m.tbl.vars.keys, m.tbl.vars.contains v = true := by
     intro v hv
@@ -617,7 +619,7 @@ theorem takeSiftOrder_outcome (m : Mgr) :
   unfold takeSiftOrder
   rw [M.bind_ok (M.get_eq m)]
   cases hs : m.sched with
-  | nil => exact ⟨⟨m.sched, rfl⟩, TreeMap.length_keys, hkeys⟩
+  | nil => exact ⟨⟨m.sched, rfl, fun _ => hs⟩, TreeMap.length_keys, hkeys⟩
   | cons it rest =>
     cases it with
     | swap lv => exact rfl
@@ -627,7 +629,7 @@ theorem takeSiftOrder_outcome (m : Mgr) :
       split
       · next hc =>
         simp only [Bool.and_eq_true, beq_iff_eq, List.all_eq_true, List.contains_iff_mem] at hc
-        refine ⟨⟨rest, rfl⟩, ?_, ?_⟩
+        refine ⟨⟨rest, rfl, fun h => by cases h⟩, ?_, ?_⟩
         · rw [hc.1.1]; exact TreeMap.length_keys
         · intro v hv; exact hkeys v (hc.1.2 v hv)
       · exact rfl
@@ -644,8 +646,8 @@ theorem applySifting_outcome (E : SiftEnv P R) (m : Mgr) (hP : P m) (h2 : 2 ≤ 
   unfold applySifting
   rw [M.bind_ok hrun, M.bind_ok (M.get_eq mg)]
   refine OkSchedAssert.bind (OkSchedAssert.of_sched (takeSiftOrder_outcome mg)) ?_
-  rintro names mb ⟨⟨s, rfl⟩, hlen, hdecl⟩
-  obtain ⟨hPb, hRb⟩ := E.sched mg s hPg
+  rintro names mb ⟨⟨s, rfl, hs0⟩, hlen, hdecl⟩
+  obtain ⟨hPb, hRb⟩ := E.sched mg s hPg hs0
   have hne : ¬ (names.isEmpty = true) := by
     intro he
     have : names = [] := List.isEmpty_iff.mp he
